@@ -507,6 +507,10 @@ def judge(run: Run):
                     q = ":wrapper-failed"
                 elif any(r["kind"] in ("deploy", "use") and r["dep"] in [i["dep"], *up] and r["start"] < t and s < r["end"] for r in reqs):
                     q = ":pinned-by-deploy-request-during-undeploy_all"
+                elif any(live_at(inst[kw], s) and (any(order[w2] for w2 in wrappers_up(w)) or any(
+                        r["kind"] in ("deploy", "use") and r["dep"] in wrappers_up(w) and r["start"] < s for r in reqs))
+                        for w in wrappers_of[i["dep"]] for kw in order[w]):
+                    q = ":wrapper-itself-wrapped"  # stack of >= 3: same root cause as inner-undeployed-while-wrapper-live:wrapper-itself-wrapped
                 else:
                     q = ""
                 V.append((t, "C26:undeploy_all-leaves-live-connector" + q, f"{rq['rid']} {kind} [{s},{t}]: {k} deploy {i['ds']}..{i['df']} undeploy {i['us']}..{i['uf']}", i["dep"]))
